@@ -76,11 +76,15 @@ macro_rules! decode_forms {
 //@ props=C12,C04 tier=quick bounds=E=u16;n=2;unknown-length-form;targets:Vec,LinkedList,[E;2]
 decode_forms!(c12_dec_u16_2_known, c12_dec_u16_2_unknown, u16, 2);
 //@ props=C12,C04 tier=quick bounds=E=u16;n=0;both-forms
+//@ props=C12,C04 tier=quick bounds=E=u16;n=0;both-forms
 decode_forms!(c12_dec_u16_0_known, c12_dec_u16_0_unknown, u16, 0);
+//@ props=C12,C04 tier=thorough bounds=E=u16;n=3;both-forms
 //@ props=C12,C04 tier=thorough bounds=E=u16;n=3;both-forms
 decode_forms!(c12_dec_u16_3_known, c12_dec_u16_3_unknown, u16, 3);
 //@ props=C12,C04 tier=quick bounds=E=(u8,u8);n=2;both-forms
+//@ props=C12,C04 tier=quick bounds=E=(u8,u8);n=2;both-forms
 decode_forms!(c12_dec_pair_2_known, c12_dec_pair_2_unknown, (u8, u8), 2);
+//@ props=C12,C04 tier=thorough bounds=E=Option<u8>;n=2;both-forms
 //@ props=C12,C04 tier=thorough bounds=E=Option<u8>;n=2;both-forms
 decode_forms!(c12_dec_opt_2_known, c12_dec_opt_2_unknown, Option<u8>, 2);
 
